@@ -30,8 +30,13 @@ mkdir -p "$OUT/parts" "$OUT/replay"
 # race runtime has shown rare internal crashes under heavy synctest load: they use the plain
 # binary. C17 and C20 drive real goroutines and are decided (partly) by the race detector.
 RACE=norace; CQ=8; CT=16; WQ=900; WT=10800
+NETNS=""
 case "$ID" in
-  C17|C20) RACE=race; CQ=4 ;;
+  C17) RACE=race; CQ=4 ;;
+  C20) RACE=race; CQ=4; CT=8
+       # real sockets with dynamic ports: give every child its own network namespace so that a port a
+       # node has just released cannot be grabbed by a sibling child before the re-bind check
+       if unshare -n true 2>/dev/null; then NETNS="unshare -n sh -c"; fi ;;
   C10) CQ=4 ;;
 esac
 if [ -n "${VERIF_CHILDREN_OVERRIDE:-}" ]; then CQ=$VERIF_CHILDREN_OVERRIDE; CT=$VERIF_CHILDREN_OVERRIDE; fi
@@ -75,7 +80,11 @@ export GORACE="halt_on_error=0 log_path=$OUT/race"
 rm -f "$OUT"/race.*
 pids=()
 for k in $(seq 0 $((N-1))); do
-  ( cd "$OUT" && VERIF_CHILD=$k timeout -s QUIT -k 20 "$W" "$TEST" -test.run "^Test${ID}\$" -test.timeout 0 -test.v > "$OUT/child-$k.log" 2>&1; echo $? > "$OUT/parts/$ID-$k.exit" ) &
+  if [ -n "$NETNS" ]; then
+    ( cd "$OUT" && VERIF_CHILD=$k $NETNS "ip link set lo up; exec timeout -s QUIT -k 20 $W $TEST -test.run '^Test${ID}\$' -test.timeout 0 -test.v" > "$OUT/child-$k.log" 2>&1; echo $? > "$OUT/parts/$ID-$k.exit" ) &
+  else
+    ( cd "$OUT" && VERIF_CHILD=$k timeout -s QUIT -k 20 "$W" "$TEST" -test.run "^Test${ID}\$" -test.timeout 0 -test.v > "$OUT/child-$k.log" 2>&1; echo $? > "$OUT/parts/$ID-$k.exit" ) &
+  fi
   pids+=($!)
 done
 for p in "${pids[@]}"; do wait "$p"; done
